@@ -450,11 +450,12 @@ fn gen_part2(thorough: bool, rng: &mut Rng, out: &mut dyn FnMut(String)) {
         for a in 0..nd { for ax in [a, a - nd] {
             k += 1;
             for (op, dt) in pick_ops(k) {
+                let (op, dt) = fit(op, dt, s, &ax.to_string());
                 let kds: Vec<&str> = if COUNT.contains(&op) { kd_all.to_vec() } else { vec!["none"] };
                 for kd in kds { out(format!("{op} {dt} {} {ax} {kd} {}", tag(s), rng.next() % 30000)); }
             }
         } }
-        for (op, dt) in pick_ops(k + 1) { out(format!("{op} {dt} {} none {} {}", tag(s), if COUNT.contains(&op) { "true" } else { "none" }, rng.next() % 30000)); }
+        for (op, dt) in pick_ops(k + 1) { let (op, dt) = fit(op, dt, s, "none"); out(format!("{op} {dt} {} none {} {}", tag(s), if COUNT.contains(&op) { "true" } else { "none" }, rng.next() % 30000)); }
         for bad in [nd, -nd - 1] { out(format!("sum i64 {} {bad} none 0", tag(s))); out(format!("argmin i64 {} {bad} true 0", tag(s))); }
     }
     // ---- (7) huge sizes: native reference cases (seventh token `ref`).  (a) more than 8192 lanes of length >= 2 (a batched walk
@@ -479,7 +480,7 @@ fn gen_part2(thorough: bool, rng: &mut Rng, out: &mut dyn FnMut(String)) {
         (vec![9000, 3], vec!["0", "none"]), (vec![100, 2, 90], vec!["0"]), (vec![16385], vec!["0", "none"]), (vec![130, 130], vec!["0", "1"]), (vec![129, 131], vec!["-1", "-2"]),
         (vec![100, 200], vec!["0", "-1"]), (vec![33000], vec!["-1"]), (vec![70000], vec!["0", "none"]), (vec![2, 70000], vec!["1", "none"]), (vec![70000, 2], vec!["0"]),
         (vec![40, 30, 30], vec!["0", "1", "2"]), (vec![10, 11, 12, 13], vec!["0", "-3", "2", "-1"]), (vec![5, 4, 10, 10, 10], vec!["0", "1", "-3", "3", "4"]), (vec![300, 300], vec!["0", "1"])];
-    if thorough { few.extend([(vec![140001], vec!["0"]), (vec![7, 131, 151], vec!["0", "1", "2"]), (vec![1, 66000, 2, 1], vec!["1", "0", "3"]), (vec![20000, 2], vec!["1"]), (vec![3, 5, 7, 11, 13, 2], vec!["0", "2", "4", "-1"])]); }
+    if thorough { few.extend([(vec![140001], vec!["0"]), (vec![7, 131, 151], vec!["0", "1", "2"]), (vec![1, 66000, 2, 1], vec!["1", "-3"]), (vec![20000, 2], vec!["1"]), (vec![3, 5, 7, 11, 13, 2], vec!["0", "2", "4", "-1"])]); }
     for (s, axes) in &few { for ax in axes {
         let reps = if thorough { 3 } else { 1 };
         for _ in 0..reps {
@@ -861,4 +862,4 @@ fn main() {
         rule: RULE });
 }
 
-const RULE: &str = "17 operations (10 reductions, count_nonzero/argmax/argmin x keepdims none/true/false, 4 scans) x every shape rank<=4 len<=3 (thorough: + rank 5 len<=2) x every axis in both spellings and `none` x i64 / f64 values (f64 with NaN, +-inf, +-0, subnormal, huge), out-of-range axes, seeded random rank 5-6; robustness streams: 14 further element types / value classes (i64 and u64/usize/isize beyond 2^53 and next to the ends of the type, i8/i16/i32/u8/u16/u32 next to their ends, f64 subnormals and NaN first/last/random, f32, bool, String) on every shape rank<=3 and every axis; every zero-length shape x every axis incl. out-of-range; big_shapes (axis lengths 7-17 in every position, > 256 / 1024 / 4096 elements); lanes of 4100 elements with repeated extremes; random shapes with one axis of 7-17. Oracles: per output position the model names the lane; (a) the same real operation with axis=None on that lane must give the bit-identical value, (b) a plain-Rust reference over the lane values (exact integer sum/product/running totals, max/min with NaN rules, count of non-zeros, FIRST position of the extreme) must agree; every case is run twice on the plain receiver and once on Ok(array) through the Result-receiver impl, all three must answer alike. non-trivial = rank>=2, axis given, lane longer than 1";
+const RULE: &str = "17 operations (10 reductions, count_nonzero/argmax/argmin x keepdims none/true/false, 4 scans) x every shape rank<=4 len<=3 (thorough: + rank 5 len<=2) x every axis in both spellings and `none` x i64 / f64 values (f64 with NaN, +-inf, +-0, subnormal, huge), out-of-range axes, seeded random rank 5-6; robustness streams: 14 further element types / value classes (i64 and u64/usize/isize beyond 2^53 and next to the ends of the type, i8/i16/i32/u8/u16/u32 next to their ends, f64 subnormals and NaN first/last/random, f32, bool, String) on every shape rank<=3 and every axis; every zero-length shape x every axis incl. out-of-range; big_shapes (axis lengths 7-17 in every position, > 256 / 1024 / 4096 elements); lanes of 4100 elements with repeated extremes; random shapes with one axis of 7-17. Oracles: per output position the model names the lane; (a) the same real operation with axis=None on that lane must give the bit-identical value, (b) a plain-Rust reference over the lane values (exact integer sum/product/running totals, max/min with NaN rules, count of non-zeros, FIRST position of the extreme) must agree; every case is run twice on the plain receiver and once on Ok(array) through the Result-receiver impl, all three must answer alike. PART 2: hidden state - same-rank shapes that collide under weak keys (polynomial hashes with multipliers 31/33/37/131/257/256 AND equal element count: [c+k,c*m] vs [c,(c+k)*m], also with a leading 3 / trailing 2; collision_shape_pairs(); permuted axis lengths; axis lengths equal modulo 2^8 and 2^16) executed back to back in both orders with the same axis through all three families; the same shape with the values reversed / one element moved by one or one ulp between two runs of the original; a refused axis directly followed by a valid call; A-B-A: after every case the previous case is run again and must answer exactly as before. Exact lengths: every lane length 1..300 in trailing ([2,d], both axes) and inner ([3,d,2]) position. Ranks 7 and 8. NATIVE LANE REFERENCE (plain coordinate arithmetic for result shape and lane membership) - compared with the model's answer on EVERY case the model answers (non-empty arrays; the closing refstats line reports the count and fails when the reference is used without >= 1000 validations in the same run) and used in place of the quadratic model on the cases marked `ref`: more than 8192 lanes ([9000,3], [3,9000], [100,2,90], [8193,2], [2,8193], [91,2,91]; boundary [8192,2]), huge_shapes() (16385..90000 elements, [70000], [2,70000], [70000,2], [2,65539]; thorough [140001], [7,131,151], [20000,2], rank 6) on every axis with at most ~20000 lanes, and the lengths 121..300 of [3,d,2] - value oracles (a) and (b) unchanged. non-trivial = rank>=2, axis given, lane longer than 1";
